@@ -318,6 +318,22 @@ def pos_family(seed, n, maxlen=4, budget=8000):
     return out
 
 
+def pos_fb_family(seed, n, maxlen=4, budget=8000):
+    """defaulted positionals (`fallback`, `fallback_with`) of every strictness in front of other positionals"""
+    rnd = random.Random(seed)
+    out = []
+    while len(out) < n:
+        i = len(out)
+        first = pos("p0", ["fallback_with", "fallback"][i % 2], ["non_strict", "any", "strict"][(i // 2) % 3], ["str", "int"][(i // 6) % 2])
+        rest = [[], [pos("p1", "many", "strict")], [pos("p1", "many")], [pos("p1", "opt", "strict")], [pos("p1", "one")]][(i // 3) % 5]
+        named = [sw("n0", "-a")] if i % 4 == 0 else []
+        d = mkdef(f"posfb{seed}_{i}", level(named, postail(first, *rest)), maxlen=maxlen, extras=("dd", "unk"),
+                  spells=("sep",), words=("1", "x"), eqvals=("1",))
+        trim_to_budget(d, budget)
+        out.append(d)
+    return out
+
+
 # ---------------------------------------------------------------- values, conversions, guards (C06)
 def val_family(seed, n, maxlen=3, budget=8000):
     rnd = random.Random(seed)
@@ -501,6 +517,59 @@ def alt_env_family(seed, n, maxlen=2, budget=3000):
         others = [sw("o1", "-v")] if rnd.random() < 0.4 else []
         d = mkdef(f"altenv{seed}_{len(out)}", level(others + [g], NOTAIL), maxlen=maxlen, extras=rnd.choice([("unk",), ()]),
                   spells=("eq",), words=("1", "x"), envvals=("UNSET", "1", "x", "2"))
+        galpha_trim(d, budget)
+        out.append(d)
+    return out
+
+
+def alt_tie_family(seed, n, maxlen=3, budget=3000):
+    """choices whose branches can all succeed on nothing (defaults): ties go to the branch listed first; built through
+    `construct!([..])` or through the `choice` function"""
+    rnd = random.Random(seed)
+    out = []
+    wraps = ["one", "opt", "many", "some"]
+    while len(out) < n:
+        i = len(out)
+        nb = 2 + i % 2
+        kinds = [(i + j) % 3 for j in range(nb)]
+        branches = []
+        for j, k in enumerate(kinds):
+            if k == 0:
+                branches.append(branch(ar(f"b{j}", "fallback", "int", f"--jobs{j}")))
+            elif k == 1:
+                branches.append(branch(ar(f"b{j}", "fallback_with", "str", f"--name{j}")))
+            else:
+                branches.append(branch(sw(f"b{j}", f"--sw{j}"), ar(f"c{j}", "opt", "int", f"--lvl{j}")))
+        g = altf("g0", wraps[i % 4], *branches)
+        g["via_choice"] = (i // 2) % 2 == 0
+        others = [sw("o1", "-v")] if i % 5 < 2 else []
+        d = mkdef(f"alttie{seed}_{i}", level(others + [g], NOTAIL), maxlen=maxlen, extras=rnd.choice([("unk",), ()]),
+                  spells=("eq",), words=("1",))
+        galpha_trim(d, budget)
+        out.append(d)
+    return out
+
+
+def group_fb_family(seed, n, maxlen=3, budget=3000):
+    """a group of items with a default for the whole group (`construct!(a, b).fallback_with(..)`): the default stands in
+    only when none of its items was typed - a partly typed group is an error, never silently replaced"""
+    rnd = random.Random(seed)
+    out = []
+    while len(out) < n:
+        i = len(out)
+        shape = i % 3
+        if shape == 0:
+            br = branch(ar("w", "one", "int", "--width"), ar("h", "one", "int", "--height"))
+        elif shape == 1:
+            br = branch(rf("on", "one", "--on"), ar("lv", "one", "int", "--lvl"), sw("x", "--extra"))
+        else:
+            br = branch(ar("k", "one", "str", "--key"), ar("vs", "some", "int", "--val"))
+        g = altf("g0", ["fallback_with", "fallback"][(i // 3) % 2], br)
+        others = [sw("o1", "-v")] if i % 2 == 0 else []
+        tail = [NOTAIL, postail(pos("p0", "many")), postail(pos("p0", "opt"))][(i // 2) % 3]
+        fields = others + [g] if i % 4 < 2 else [g] + others
+        d = mkdef(f"grpfb{seed}_{i}", level(fields, tail), maxlen=maxlen, extras=rnd.choice([("unk",), ("dd",), ()]),
+                  spells=("eq",), words=("1", "x"))
         galpha_trim(d, budget)
         out.append(d)
     return out
